@@ -52,10 +52,11 @@ def script_events(t, modname='vtw.tests'):
     s = t['s']
     if t.get('dt'):
         # str() of a doctest case
+        from vt import worldrt
+        dn = worldrt.doctest_name(t, modname)
         if t['dt'] == 'file':
-            base = os.path.basename(t.get('dfile') or '/vtw/%s.txt' % t['n'])
+            base = dn            # str(DocFileCase) is the file path
         else:
-            dn = t.get('dname') or '%s.d_%s' % (modname, t['n'])
             base = '%s (%s)' % (dn.split('.')[-1], '.'.join(dn.split('.')[:-1]))
         return [('F', base)] if s == 'fail' else []
     base = 'test_%s (%s.T_%s.test_%s)' % (t['n'], modname, t['n'], t['n'])
@@ -159,7 +160,7 @@ def split_names(names):
             layers.append(n)
         elif n.startswith('subprocess for ') or n.startswith('subprocess failed for '):
             subs.append(n)
-        elif n.startswith('test_'):
+        elif n.startswith('test_') or n.startswith('/vtw/test_'):
             tests[n] += 1
         else:
             other.append(n)
